@@ -293,6 +293,36 @@ def run_case(case):
                 viol("duplicate-scale-keys", f"after regeneration from own output: {k2[:8]}")
         except Exception as exc:  # noqa: BLE001
             viol("regeneration-from-own-output-raised", f"{type(exc).__name__}: {exc}")
+        # ... and a second run over the generated info asking for ANOTHER encoding (the
+        # documented way to derive e.g. a JPEG pyramid description from a raw one): every
+        # scale of the result carries the requested encoding, as in a first run
+        if not v and case["size"][2] % 2 == 0:
+            other = [e for e in ("raw", "jpeg", "compressed_segmentation")
+                     if e != sc[0].get("encoding")][case["size"][0] % 2]
+            try:
+                re_in = copy.deepcopy(out)
+                gsi.set_info_params(re_in, encoding=other)
+                re_out = dyadic_pyramid.fill_scales_for_dyadic_pyramid(
+                    re_in, target_chunk_size=T, max_scales=ms)
+                obs["regenerated_with_another_encoding"] = 1
+                encs = [s_.get("encoding") for s_ in re_out["scales"]]
+                if any(e != other for e in encs):
+                    viol("regeneration-with-another-encoding-keeps-old-encodings",
+                         f"asked for {other} over a generated {sc[0].get('encoding')} "
+                         f"pyramid: encodings {encs[:8]}")
+                elif other == "compressed_segmentation" and any(
+                        "compressed_segmentation_block_size" not in s_
+                        for s_ in re_out["scales"]):
+                    viol("regeneration-with-another-encoding-keeps-old-encodings",
+                         "compressed_segmentation scales without a block size")
+                elif [(s_["size"], s_["resolution"], s_["chunk_sizes"])
+                      for s_ in re_out["scales"]] != [
+                        (s_["size"], s_["resolution"], s_["chunk_sizes"]) for s_ in sc]:
+                    viol("regeneration-from-own-output-differs",
+                         f"geometry changed when asking for encoding {other}")
+            except Exception as exc:  # noqa: BLE001
+                viol("regeneration-from-own-output-raised",
+                     f"encoding {other}: {type(exc).__name__}: {exc}")
         # ... and an input that lists several scales in another order: "only the first one
         # will be used" (documented), whichever is the finest
         if not v and len(sc) >= 2 and case["size"][1] % 3 == 0:
@@ -382,6 +412,8 @@ def run_case(case):
                 viol("coarser-axis-starts-before-finer",
                      f"axis {b} (res {res[b]}) starts at level {started[b]}, axis {a} "
                      f"(res {res[a]}) at {started[a]}")
+    if ms is not None and len(sc) > ms:
+        viol("more-scales-than-the-requested-limit", f"{len(sc)} scales for max_scales={ms}")
     cut = ms is not None and len(sc) >= ms
     obs["max_scales_cut"] = int(cut)
     if not cut and any(x > 2 * T for x in sc[-1]["size"]):
@@ -481,6 +513,8 @@ def gates(obs, tier):
         and calls.get("compute_dyadic_downscaling", 0) > 1000,
         "cli_runs": obs.get("cli_runs", 0) > 20,
         "max_scales_cuts_seen": obs.get("max_scales_cut", 0) > 50,
+        "regenerated_with_another_encoding": obs.get(
+            "regenerated_with_another_encoding", 0) > 50,
         "one_two_three_distinct_delays": len(obs.get("distinct_delay_counts", {})) == 3,
         "fractional_resolutions": obs.get("fractional_resolution", 0) > 100,
         "encoder_checks": obs.get("encoder_checks", 0) > 1000,
